@@ -155,6 +155,15 @@ def run_one(ch, cfg):
         from sim.procworld import ProcWorld
         w = ProcWorld(ch, platform="tcp", device_cfg=dict(dcfg, mode=0x03), step_cap=60000)
         w.link.latency_fn = lambda apdu: lat[ch.draw(len(lat), "latency")]
+        # a signal reaches the manager process while clients are queued (one run in three): whatever
+        # the process does about it (nothing, end, a handler of its own) happens in the main thread on
+        # top of the request being served - which still owns the device for its whole block
+        if ch.draw(3, "signal") == 1:
+            import signal as _sg
+            w.signal_at = (ch.draw(120, "signal.seam"),
+                           ch.pick([_sg.SIGHUP, _sg.SIGWINCH, _sg.SIGUSR1, _sg.SIGCHLD], "signal.number"))
+            # (not SIGINT: the operator's Ctrl-C is a request to stop; what the requests in flight
+            # get then is not this property's subject)
     else:
         w = ServerWorld(ch, fault_fn=fault_fn if nfaults else None, device_cfg=dcfg, step_cap=60000,
                         latency=lambda apdu: lat[ch.draw(len(lat), "latency")])
@@ -211,10 +220,14 @@ def run_one(ch, cfg):
         raise RuntimeError(str(w.manager_task.exc))
     # ---- every client answered with the reply to its own request
     cid_of = {}
+    sigs = getattr(w, "signals", [])
+    ended_by_signal = any(x[4] in ("terminated", "KeyboardInterrupt") for x in sigs)
     for i, req, chk, start, frag in plans:
         d = done.get(i)
         if fatal and (d is None or d[0] == "refused" or not d[1]):
             continue              # the manager is going down: not being served is legitimate
+        if ended_by_signal and (d is None or d[0] == "refused" or not d[1]):
+            continue              # the process was told to end (default action of the signal / Ctrl-C)
         if d is None:
             viol.append(("liveness/unanswered", "client %d (%s) got no reply; scheduler ended with %s"
                          % (i, kinds[i], outcome)))
@@ -257,10 +270,12 @@ def run_one(ch, cfg):
     sched_sig = hashlib.sha1("/".join(k.sched_trace).encode()).hexdigest()[:12]
     st = (tuple(w.net.accept_order), sched_sig)
     return {"violations": viol, "digest": w.log.digest(), "state": st,
-            "nontrivial": overlap >= 1, "faults": dict(w.link.stats.faults),
-            "probes": {"max_backlog_%d" % min(overlap, 8): 1, "clients": nclients,
-                       "handler_threads": sum(1 for t in k.tasks if t.name.startswith("thread")
-                                              or t.name.startswith("Thread"))},
+            "nontrivial": overlap >= 1,
+            "probes": dict({"max_backlog_%d" % min(overlap, 8): 1, "clients": nclients,
+                            "handler_threads": sum(1 for t in k.tasks if t.name.startswith("thread")
+                                                   or t.name.startswith("Thread"))},
+                           **{"signal.%s" % x[4]: 1 for x in sigs}),
+            "faults": dict(dict(w.link.stats.faults), **{"signal." + x[4]: 1 for x in sigs}),
             "sim_s": w.clock.elapsed, "sched": sched_sig,
             "sample": {"clients": [{"i": i, "kind": kinds[i], "start": s, "fragmented": f}
                                    for i, _, _, s, f in plans],
